@@ -71,7 +71,18 @@ Right(cr)  == cr = "right"                              \* ... and whether the p
 AllStanzas == Kinds \X Froms \X Tos
 \* reduced alphabets for generator configurations (a .cfg cannot write tuples)
 CoreStanzas == {<<"message", "absent", "victimFull">>, <<"iq", "absent", "domain">>, <<"message", "victim", "victimFull">>}
-MidStanzas  == {"message", "iq"} \X {"absent", "own", "victim"} \X {"victimFull", "domain"}
+\* from classes naming the own account but not this connection's address, and near-misses of it
+\* (a resource nobody bound, the resource of another live session of the account, the own resource
+\* in another case, a trailing slash, the own full JID as a proper prefix, the served domain only,
+\* the own localpart at a domain that starts like the served one): never legitimate
+NearOwnFroms == {"ownOtherRes", "ownSibling", "ownCase", "ownSlash", "ownPrefix", "ownDomain", "ownLookalike"}
+MidStanzas  == ({"message", "iq"} \X {"absent", "own", "victim"} \X {"victimFull", "domain"})
+               \cup ({"message"} \X NearOwnFroms \X {"victimFull"})
+\* exhaustive configuration: everything for the five basic classes, the near-own classes (which the
+\* model treats alike: dropped) towards the victim's full JID
+McStanzas   == (Kinds \X (Froms \ NearOwnFroms) \X Tos) \cup (Kinds \X NearOwnFroms \X {"victimFull"})
+\* every from class against every identity state of the connection (ServerGenTourF.cfg)
+FromStanzas == {"message", "iq"} \X Froms \X {"victimFull"}
 
 \* no exchange in progress: the fields describing one are back to their defaults
 Idle(c0) == [c0 EXCEPT !.st = "none", !.ver = "sasl", !.xuser = "", !.b2 = FALSE]
@@ -222,7 +233,8 @@ Session ==
 
 (* --- any other stanza: legitimacy check, from stamping, routing -------------- *)
 \* "own" is the full address the server reported (or would report for resource "ra"); it equals
-\* d->jid only once a resource is bound
+\* d->jid only once a resource is bound.  Every other explicit from (another user's, and the
+\* NearOwnFroms) differs from both d->jid and its bare form: the stanza is dropped
 Legit(f) == f \in {"absent", "ownBare"} \/ (f = "own" /\ c.res # "")
 Stamp(f) == IF f = "ownBare" THEN J(c.authed, "") ELSE J(c.authed, c.res)
 ToJ(t)   == IF t = "victimBare" THEN J(Vic, "") ELSE J(Vic, VicRes)
